@@ -34,6 +34,8 @@ def swap_palette_exact(F, S):
         out.append(bad("R-SIB", inst, c.loc(c.body), c.qn, "the channel swap exchanges red and blue and touches nothing else", "shape not found"))
     for q in (T + "SwapPaletteRedAndBlue", B + "::SwapRedAndBlue"):
         fn = F.fns(q)
+        if len(fn) == 0 and q.endswith("SwapPaletteRedAndBlue"):
+            continue            # inlined into its caller: the caller's swap is judged by once_each_side below
         if len(fn) != 1:
             raise AnalysisBroken("%s not unique" % q)
         fn = fn[0]
@@ -59,16 +61,17 @@ def once_each_side(F, S):
     rd = F.fn(T + "ReadCustomTileset", nparams=1, pred=lambda f: "Reader &)" in f.key)
     wr = F.fn(T + "WriteCustomTileset", nparams=2, pred=lambda f: "Writer &," in f.key)
     # reader: exactly one swap, after the palette read, before the return
-    sw = [nd for nd in rd.nodes if nd["k"] == "CXXMemberCallExpr" and nd.get("fname") == "SwapRedAndBlue"] + \
-         [nd for nd in rd.nodes if nd["k"] in CALLS and nd.get("fname") == "SwapPaletteRedAndBlue"]
+    from .c10 import swapped_containers
+    sw = [nd for (nd, obj) in swapped_containers(F, rd) if obj[0] == "mem" and obj[2] == "palette"]
     reads = [nd for nd in rd.nodes if nd["k"] == "CXXMemberCallExpr" and nd.get("fname") == "Read" and rd.term(nd["args"][0])[0] == "mem" and rd.term(nd["args"][0])[2] == "palette"]
     inst = T + "ReadCustomTileset#swap-once"
-    loops = any(nd["k"] in ("ForStmt", "WhileStmt", "CXXForRangeStmt", "DoStmt") and sw and sw[0]["id"] in rd.subtree(nd["id"]) for nd in rd.nodes)
+    loops = any(nd["k"] in ("ForStmt", "WhileStmt", "CXXForRangeStmt", "DoStmt") and sw and sw[0]["id"] in rd.subtree(nd["id"]) and nd["id"] != sw[0]["id"] for nd in rd.nodes)
     if len(sw) == 1 and len(reads) == 1 and sw[0]["id"] > reads[0]["id"] and not loops:
         out.append(ok("R-MUSTCALL", inst, rd.loc(sw[0]["id"]), rd.qn, "the palette read from the file is channel-swapped exactly once before it is returned", "one swap after the read"))
     else:
         out.append(bad("R-MUSTCALL", inst, rd.loc(rd.body), rd.qn, "the palette read from the file is channel-swapped exactly once before it is returned", "%d swap sites" % len(sw)))
-    sw = [nd for nd in wr.nodes if nd["k"] in CALLS and nd.get("fname") in ("SwapPaletteRedAndBlue", "SwapRedAndBlue")]
+    pic = ("var", wr.params[1]["n"], wr.params[1]["d"])
+    sw = [nd for (nd, obj) in swapped_containers(F, wr) if obj == ("mem", pic, "palette")]
     writes = [nd for nd in wr.nodes if nd["k"] == "CXXMemberCallExpr" and nd.get("fname") == "Write" and wr.term(nd["args"][0])[0] == "mem" and wr.term(nd["args"][0])[2] == "palette"]
     inst = T + "WriteCustomTileset#swap-once"
     by_value = not wr.params[1].get("ref")
